@@ -1,6 +1,7 @@
 package main
 
 import (
+	"regexp"
 	"encoding/json"
 	"flag"
 	"fmt"
@@ -42,6 +43,43 @@ func main() {
 }
 
 // loadOverlay maps /verif/harness/<pkg>/*.go to /repo/<pkg>/<file>.
+// droppedHarnessFiles: harness files that do not compile against the tree under test (a refactoring renamed
+// something internal they refer to). They are left out of the overlay - and of the native replay build - so
+// that the other harnesses still run; the harnesses they define are reported as unavailable (inconclusive).
+var droppedHarnessFiles = map[string]string{} // base name -> first compile error
+
+var harnessFileInError = regexp.MustCompile(`(zz_verif_\w+\.go):\d+`)
+
+// loadEngine loads /repo with the harness overlay; when the load fails with errors inside harness files, those
+// files are dropped and the load is retried (errors cascade, hence the loop).
+func loadEngine(repo, harnessDir string) (*sym.Engine, error) {
+	for attempt := 0; ; attempt++ {
+		ov, err := loadOverlay(repo, harnessDir)
+		if err != nil {
+			return nil, err
+		}
+		eng, err := sym.Load(repo, ov)
+		if err == nil {
+			return eng, nil
+		}
+		if attempt >= 6 || !strings.Contains(err.Error(), "package load errors") {
+			return nil, err
+		}
+		dropped := false
+		for _, line := range strings.Split(err.Error(), "\n") {
+			if m := harnessFileInError.FindStringSubmatch(line); m != nil {
+				if _, ok := droppedHarnessFiles[m[1]]; !ok {
+					droppedHarnessFiles[m[1]] = strings.TrimSpace(line)
+					dropped = true
+				}
+			}
+		}
+		if !dropped {
+			return nil, err
+		}
+	}
+}
+
 func loadOverlay(repo, harnessDir string) (map[string][]byte, error) {
 	ov := map[string][]byte{}
 	for _, extra := range extraHarnessDirs { // generated harness data (fixtures.go)
@@ -59,6 +97,9 @@ func loadOverlay(repo, harnessDir string) (map[string][]byte, error) {
 	err := filepath.Walk(harnessDir, func(p string, info os.FileInfo, err error) error {
 		if err != nil || info.IsDir() || !strings.HasSuffix(p, ".go") {
 			return err
+		}
+		if _, skip := droppedHarnessFiles[filepath.Base(p)]; skip {
+			return nil
 		}
 		rel, _ := filepath.Rel(harnessDir, p)
 		if strings.HasPrefix(rel, "veriflib/") {
@@ -110,12 +151,10 @@ func cmdRun(args []string) {
 		}
 		fmt.Printf("%d fixtures, native outcomes computed\n", n)
 	}
-	ov, err := loadOverlay(*repo, *hdir)
-	if err != nil {
-		fmt.Fprintln(os.Stderr, err)
-		os.Exit(2)
+	eng, err := loadEngine(*repo, *hdir)
+	for f, e := range droppedHarnessFiles {
+		fmt.Printf("harness file %s does not compile against this tree and was left out: %s\n", f, e)
 	}
-	eng, err := sym.Load(*repo, ov)
 	if err != nil {
 		fmt.Fprintln(os.Stderr, err)
 		os.Exit(2)
